@@ -352,6 +352,28 @@ pub fn cell_range(u: f64, shift: f64, delta: f64, z: u8) -> (u32, u32) {
 	let c = |v: f64| -> u32 { if v.is_nan() { 0 } else { v.floor().max(0.0).min(m) as u32 } };
 	(c(u + shift - delta), c(u + shift + delta))
 }
+/// the discrete stage of from_geo against the Coq model (Model/Geo.v), for the checks of properties that lean on it (C09, C06):
+/// longitudes whose tile coordinate is exact in f64, on and around tile edges, all 32 levels
+pub fn geo_axis_lines(out: &mut Out, rng: &mut Rng) {
+	let offs: [i64; 9] = [0, 1, -1, (1 << 20) - 1, 1 - (1 << 20), 1 << 20, -(1 << 20), 1 << 21, -(1 << 21)];
+	let q = 40u32;
+	for z in 0..=31u8 {
+		let n = 1u64 << z;
+		let guard_units: u128 = if z <= 29 { 1u128 << q } else { 1_000_000u128 << (z as u32 + q - 49) }; let per_tile: i64 = 1i64 << (q - z as u32);
+		let cells: Vec<u64> = if z <= 2 { (0..=n).collect() } else { vec![0, 1, n / 2, n - 1, n, rng.below(n + 1)] };
+		for &cw in &cells { for &ce in &cells { if ce < cw { continue; }
+			for k in 0..3 {
+				let (ow, oe) = if k == 0 && cw == ce { (0, 0) } else { (*rng.pick(&offs), *rng.pick(&offs)) }; // k = 0: a box without extent exactly on the edge
+				let pw = (cw as i64 * per_tile + ow).clamp(0, 1i64 << q); let pe = (ce as i64 * per_tile + oe).clamp(0, 1i64 << q);
+				if pe < pw { continue; }
+				let big = |p: i64| -> String { ((p as u128) * (n as u128) * 1_000_000u128).to_string() };
+				let args = [((1u128 << q) * 1_000_000).to_string(), guard_units.to_string(), n.to_string(), big(pw), big(pe)];
+				let refs: Vec<&str> = args.iter().map(|s| s.as_str()).collect();
+				out.line(&format!("geo.axis {} => {}", args.join(" "), eval("geo.axis", &refs)));
+			}
+		} }
+	}
+}
 fn geo_section(w: &mut W, rng: &mut Rng, specv: &mut Vec<SpecV>, spec_cases: &mut u64, thorough: bool) {
 	// (1) the discrete stage against the Coq model: longitudes whose tile coordinate is exact in f64, on and around tile edges
 	let offs: [i64; 15] = [0, 1, -1, 1 << 10, -(1 << 10), (1 << 20) - 1, 1 - (1 << 20), 1 << 20, -(1 << 20), 1 << 21, -(1 << 21), 1 << 39, -(1 << 39), 3 << 30, -(3 << 30)];
